@@ -318,6 +318,50 @@ fn build_handshake(c: &WsCase) -> (Vec<u8>, bool, Vec<&'static str>) {
 struct Live {
     addr: std::net::SocketAddr,
     server: dropshot::HttpServer<WsCtx>,
+    tls: bool,
+}
+
+/// send the payload in pieces and read the echo back over any byte stream
+async fn echo_exchange<S: tokio::io::AsyncRead + tokio::io::AsyncWrite + Unpin + Send + 'static>(stream: S, pre: Vec<u8>, payload: Vec<u8>, cuts: Vec<usize>) -> Vec<u8> {
+    let (mut rd, mut wr) = tokio::io::split(stream);
+    let want = payload.len();
+    let writer = tokio::spawn(async move {
+        let mut cuts = cuts;
+        cuts.sort();
+        cuts.dedup();
+        let mut prev = 0;
+        for cpos in cuts.into_iter().chain(std::iter::once(payload.len())) {
+            if cpos > prev {
+                if wr.write_all(&payload[prev..cpos]).await.is_err() {
+                    return None;
+                }
+                let _ = wr.flush().await;
+                tokio::task::yield_now().await;
+                prev = cpos;
+            }
+        }
+        Some(wr)
+    });
+    let mut got = pre;
+    let mut buf = vec![0u8; 65536];
+    let deadline = tokio::time::Instant::now() + Duration::from_secs(20);
+    while got.len() < want {
+        match tokio::time::timeout_at(deadline, rd.read(&mut buf)).await {
+            Err(_) => break,
+            Ok(Ok(0)) => break,
+            Ok(Ok(n)) => got.extend_from_slice(&buf[..n]),
+            Ok(Err(_)) => break,
+        }
+    }
+    if let Ok(Some(mut wr)) = writer.await {
+        let _ = wr.shutdown().await;
+    }
+    got
+}
+
+enum Transport {
+    Plain(tokio::net::TcpStream),
+    Tls(Box<tokio_rustls::client::TlsStream<tokio::net::TcpStream>>),
 }
 
 fn check_ws(live: &Live, rt: &tokio::runtime::Runtime, c: &WsCase, st: &mut Stats) -> Result<(), Failure> {
@@ -326,9 +370,27 @@ fn check_ws(live: &Live, rt: &tokio::runtime::Runtime, c: &WsCase, st: &mut Stat
     let shown = truncate(&String::from_utf8_lossy(&req), 600);
     rt.block_on(async {
         let before = ctx.entered.load(Ordering::SeqCst);
-        let mut conn = http1::Conn::connect(live.addr).await.map_err(|e| Failure::new("connect", e.to_string()))?;
-        conn.send(&req).await.map_err(|e| Failure::new("send", e.to_string()))?;
-        let resp = match conn.read_response(false, Duration::from_secs(10)).await.resp() {
+        let tcp = tokio::net::TcpStream::connect(live.addr).await.map_err(|e| Failure::new("connect", e.to_string()))?;
+        tcp.set_nodelay(true).ok();
+        let mut transport = if live.tls {
+            let connector = crate::tls::connector();
+            Transport::Tls(Box::new(crate::tls::handshake(&connector, tcp).await.map_err(|e| Failure::new("tls-handshake", e.to_string()))?))
+        } else {
+            Transport::Plain(tcp)
+        };
+        let mut pre: Vec<u8> = vec![];
+        let outcome = match &mut transport {
+            Transport::Plain(s) => {
+                s.write_all(&req).await.map_err(|e| Failure::new("send", e.to_string()))?;
+                http1::read_response_from(s, &mut pre, false, Duration::from_secs(10)).await
+            }
+            Transport::Tls(s) => {
+                s.write_all(&req).await.map_err(|e| Failure::new("send", e.to_string()))?;
+                s.flush().await.ok();
+                http1::read_response_from(s.as_mut(), &mut pre, false, Duration::from_secs(10)).await
+            }
+        };
+        let resp = match outcome.resp() {
             Ok(r) => r,
             Err(e) => fail!("no-response", "handshake {:?}: {}", shown, e),
         };
@@ -376,45 +438,15 @@ fn check_ws(live: &Live, rt: &tokio::runtime::Runtime, c: &WsCase, st: &mut Stat
             );
             // payload echo
             let cuts: Vec<usize> = c.payload_cuts.iter().map(|x| (*x as usize) * c.payload.len() / 1000).collect();
-            let payload = c.payload.clone();
-            let (mut rd, mut wr) = conn.stream.into_split();
-            let pre = std::mem::take(&mut conn.buf);
-            let writer = tokio::spawn(async move {
-                let mut cuts = cuts;
-                cuts.sort();
-                cuts.dedup();
-                let mut prev = 0;
-                for cpos in cuts.into_iter().chain(std::iter::once(payload.len())) {
-                    if cpos > prev {
-                        if wr.write_all(&payload[prev..cpos]).await.is_err() {
-                            return None;
-                        }
-                        let _ = wr.flush().await;
-                        tokio::task::yield_now().await;
-                        prev = cpos;
-                    }
-                }
-                // hand the write half back: it stays open until the reader is done
-                Some(wr)
-            });
-            let mut got = pre;
-            let mut buf = vec![0u8; 65536];
-            let deadline = tokio::time::Instant::now() + Duration::from_secs(20);
-            while got.len() < c.payload.len() {
-                match tokio::time::timeout_at(deadline, rd.read(&mut buf)).await {
-                    Err(_) => break,
-                    Ok(Ok(0)) => break,
-                    Ok(Ok(n)) => got.extend_from_slice(&buf[..n]),
-                    Ok(Err(_)) => break,
-                }
-            }
-            if let Ok(Some(mut wr)) = writer.await {
-                let _ = wr.shutdown().await;
-            }
+            let got = match transport {
+                Transport::Plain(s) => echo_exchange(s, pre, c.payload.clone(), cuts).await,
+                Transport::Tls(s) => echo_exchange(*s, pre, c.payload.clone(), cuts).await,
+            };
             ensure!(
                 got == c.payload,
                 "payload-not-echoed",
-                "after the upgrade {} payload bytes were sent, {} came back (first difference at {:?})",
+                "[{}] after the upgrade {} payload bytes were sent, {} came back (first difference at {:?})",
+                if live.tls { "https" } else { "http" },
                 c.payload.len(),
                 got.len(),
                 got.iter().zip(c.payload.iter()).position(|(a, b)| a != b)
@@ -466,12 +498,21 @@ pub fn run(ctx: &mut Ctx) {
     let live = {
         let _g = srt.enter();
         let server = start_server(ws_api(), WsCtx::default(), Default::default(), None).expect("server");
-        Live { addr: server.local_addr(), server }
+        Live { addr: server.local_addr(), server, tls: false }
+    };
+    let live_tls = {
+        let _g = srt.enter();
+        let server = crate::dynapi::start_server_tls(ws_api(), WsCtx::default(), Default::default()).expect("https server");
+        Live { addr: server.local_addr(), server, tls: true }
     };
     let n = ctx.tier.pick(4000, 60000);
     ctx.phase("handshakes", n, ws_case(), |c, st| check_ws(&live, &rt, c, st));
     ctx.require_frac("handshakes", "positive", "positive", 1.0);
     ctx.require_frac("handshakes", "negative", "positive", 0.1);
     ctx.require_frac("handshakes", "positive_connection_list", "positive", 0.3);
+    // the HTTPS accept path serves connections through separate code: same property over TLS
+    let n = ctx.tier.pick(600, 8000);
+    ctx.phase("handshakes_https", n, ws_case(), |c, st| check_ws(&live_tls, &rt, c, st));
     let _ = srt.block_on(live.server.close());
+    let _ = srt.block_on(live_tls.server.close());
 }
